@@ -15,10 +15,23 @@ pub fn check(r: &RunResult, rep: &mut Report) {
 	let mut open_info: std::collections::BTreeMap<u64, (bool, String)> = Default::default();
 	for e in w.trace.iter() {
 		match &e.ev {
-			Ev::FsOpen { id, path, write: true, existed, .. } => {
+			Ev::FsOpen {
+				id,
+				path,
+				write: true,
+				existed,
+				..
+			} => {
 				open_info.insert(*id, (*existed, path.clone()));
 			}
-			Ev::FsClose { id, path, written, disk_len, exact, .. } => {
+			Ev::FsClose {
+				id,
+				path,
+				written,
+				disk_len,
+				exact,
+				..
+			} => {
 				let existed = open_info.get(id).map(|x| x.0).unwrap_or(false);
 				let sel = super::super::fs::selector(w, std::path::Path::new(path));
 				let ftype = sel.split(':').next().unwrap_or("other").to_string();
@@ -30,8 +43,21 @@ pub fn check(r: &RunResult, rep: &mut Report) {
 					rep.probe("c02.shorter_over_longer", 1);
 				}
 				if !exact {
-					let cause = if disk_len > written { "residue_of_longer_old_content" } else { "content_differs" };
-					rep.add(Violation::new("C02", "write_left_other_content", cause, &ftype, format!("{} bytes written to {} but the file holds {} bytes", written, sel, disk_len)));
+					let cause = if disk_len > written {
+						"residue_of_longer_old_content"
+					} else {
+						"content_differs"
+					};
+					rep.add(Violation::new(
+						"C02",
+						"write_left_other_content",
+						cause,
+						&ftype,
+						format!(
+							"{} bytes written to {} but the file holds {} bytes",
+							written, sel, disk_len
+						),
+					));
 				}
 			}
 			_ => {}
@@ -52,17 +78,38 @@ pub fn check(r: &RunResult, rep: &mut Report) {
 			Ev::AttemptEnd { snap, .. } => snap.clone(),
 			_ => continue,
 		};
-		let idx = match w.plan.config.certificates.iter().position(|c| toml_emit::cert_id(c) == a.cert) {
+		let idx = match w
+			.plan
+			.config
+			.certificates
+			.iter()
+			.position(|c| toml_emit::cert_id(c) == a.cert)
+		{
 			Some(i) => i,
 			None => continue,
 		};
 		// the order of this attempt: the last order of this certificate created inside the attempt
+		// Certificates that differ only by their key type ("twins") place identical orders: there the
+		// order is told apart by the type of the key it was finalized with.
+		let certs = &w.plan.config.certificates;
+		let idents_of = |c: usize| super::super::expect::cert_wire_idents(&certs[c]);
+		let twins: Vec<usize> = (0..certs.len()).filter(|c| idents_of(*c) == idents_of(idx)).collect();
+		let my_kt = certs[idx].key_type.clone().unwrap_or_else(|| "rsa2048".into());
 		let mut found = None;
 		for ca in w.cas.iter() {
 			for o in ca.orders.iter() {
-				if o.cert == Some(idx) && o.created_t >= a.begin.t && o.created_t <= end.t {
+				let mine = if twins.len() > 1 {
+					o.cert.map(|c| twins.contains(&c)).unwrap_or(false)
+						&& o.issued.map(|i| super::c01::key_type_of_spki(&ca.issued[i].leaf_pubkey_der) == my_kt).unwrap_or(false)
+				} else {
+					o.cert == Some(idx)
+				};
+				if mine && o.created_t >= a.begin.t && o.created_t <= end.t {
 					if let Some(i) = o.issued {
-						found = Some((ca.issued[i].pem.clone(), ca.issued[i].leaf_pubkey_der.clone()));
+						found = Some((
+							ca.issued[i].pem.clone(),
+							ca.issued[i].leaf_pubkey_der.clone(),
+						));
 					}
 				}
 			}
@@ -74,11 +121,31 @@ pub fn check(r: &RunResult, rep: &mut Report) {
 		rep.nontrivial = true;
 		rep.probe("c02.successful_attempts_compared", 1);
 		if sha256_hex(pem.as_bytes()) != snap.crt_hash {
-			let cause = if snap.crt_len > pem.len() { "residue_of_longer_old_content" } else { "content_differs" };
-			rep.add(Violation::new("C02", "certificate_file_differs_from_issued", cause, "crt", format!("CA served {} bytes, file holds {} bytes", pem.len(), snap.crt_len)));
+			let cause = if snap.crt_len > pem.len() {
+				"residue_of_longer_old_content"
+			} else {
+				"content_differs"
+			};
+			rep.add(Violation::new(
+				"C02",
+				"certificate_file_differs_from_issued",
+				cause,
+				"crt",
+				format!(
+					"CA served {} bytes, file holds {} bytes",
+					pem.len(),
+					snap.crt_len
+				),
+			));
 		}
 		if !snap.pk_parses || snap.pk_pub != csr_pub {
-			rep.add(Violation::new("C02", "key_file_is_not_the_csr_key", "", "pk", String::new()));
+			rep.add(Violation::new(
+				"C02",
+				"key_file_is_not_the_csr_key",
+				"",
+				"pk",
+				String::new(),
+			));
 		}
 	}
 }
